@@ -84,6 +84,9 @@ type impl struct {
 	shorts   []string // names of requests whose context ended during an outage: they must never reach the broker
 	tokenFlagged bool
 	pendingViolation string
+	downAliases map[*broker.Inc]map[uint32]string
+	aliasSeq    int
+	aliasClash  string
 	dialsAtClose int
 	tokensAtClose int32
 }
@@ -122,6 +125,21 @@ func (i *impl) teardown() {
 	}
 }
 
+// claimAlias (i.mu held): the aliases the client's downstreams ask for on one transport must be pairwise distinct - the alias
+// is what keeps the streams' entries in the connection's routing tables apart.
+func (i *impl) claimAlias(inc *broker.Inc, alias uint32, who string) {
+	if i.downAliases == nil {
+		i.downAliases = map[*broker.Inc]map[uint32]string{}
+	}
+	if i.downAliases[inc] == nil {
+		i.downAliases[inc] = map[uint32]string{}
+	}
+	if other, taken := i.downAliases[inc][alias]; taken && other != who && i.aliasClash == "" {
+		i.aliasClash = fmt.Sprintf("two live downstreams of one connection ask for the same stream alias %d on the same transport (%s and %s): their routing-table entries collide", alias, other, who)
+	}
+	i.downAliases[inc][alias] = who
+}
+
 func (i *impl) incs() []*broker.Inc {
 	i.b.Lock()
 	defer i.b.Unlock()
@@ -142,9 +160,19 @@ func (i *impl) reset() string {
 			return true
 		case *message.DownstreamResumeRequest:
 			i.mu.Lock()
+			i.claimAlias(inc, r.DesiredStreamIDAlias, r.StreamID.String())
 			i.held = append(i.held, held{inc, m, r.StreamID})
 			i.mu.Unlock()
 			return true
+		case *message.DownstreamCloseRequest:
+			i.b.Lock()
+			ds := i.b.Downs[r.StreamID]
+			i.b.Unlock()
+			if ds != nil {
+				i.mu.Lock()
+				delete(i.downAliases[inc], ds.Alias) // the alias is free again on this transport
+				i.mu.Unlock()
+			}
 		case *message.UpstreamMetadata:
 			if bt, ok := r.Metadata.(*message.BaseTime); ok {
 				i.mu.Lock()
@@ -156,6 +184,10 @@ func (i *impl) reset() string {
 			}
 		case *message.UpstreamOpenRequest, *message.DownstreamOpenRequest:
 			i.mu.Lock()
+			if o, ok := m.(*message.DownstreamOpenRequest); ok {
+				i.aliasSeq++
+				i.claimAlias(inc, o.DesiredStreamIDAlias, fmt.Sprintf("new downstream #%d", i.aliasSeq))
+			}
 			ho := i.holdOpen
 			i.mu.Unlock()
 			if ho {
@@ -1112,6 +1144,11 @@ func (i *impl) exec(h *lp.H, op string) string {
 		return "bad-op"
 	}
 	out := i.summary()
+	i.mu.Lock()
+	if i.aliasClash != "" && i.pendingViolation == "" {
+		i.pendingViolation, i.aliasClash = i.aliasClash, ""
+	}
+	i.mu.Unlock()
 	if i.pendingViolation != "" {
 		h.Violate(i.pendingViolation)
 		i.pendingViolation = ""
